@@ -1,5 +1,5 @@
 PROP = {
-    "groups": ["noise"],
+    "groups": ["noise", "e2e-tmux"],
     "rule": "real recvLine (through a trzszTransfer with TmuxOutputJunk / windowsProtocol) and stripTmuxStatusLine vs the extracted model, "
             "every chunk queued beforehand, several recvLine calls per buffer: captured strings of buffer_test.go / transfer_test.go with "
             "random chunkings; renderings from a Go generator that mirrors the constructors of the noise relations (tmux: junk in front, "
